@@ -21,7 +21,7 @@ def selftest() -> int:
     env = dict(os.environ, PYTHONPATH=str(ROOT), PYTHONDONTWRITEBYTECODE="1")
     cmd = ["/venv/bin/python", "-m", "pytest", "-p", "vf.selftest_plugin", "-p", "no:cacheprovider",
            "-n", "16", "tests", "-q", "--timeout=600", *deselect]
-    return subprocess.run(cmd, cwd="/repo", env=env).returncode
+    return subprocess.run(cmd, cwd=os.environ.get("VF_REPO_ROOT", "/repo"), env=env).returncode
 
 
 def main() -> int:
